@@ -120,6 +120,23 @@ async def settle_children(conn, maxwait=2.0):
     await asyncio.sleep(0.03)
 
 
+def procs_mentioning(needle: str) -> int:
+    """Number of other processes whose command line contains `needle`."""
+    n = 0
+    me = os.getpid()
+    nb = needle.encode("utf-8", errors="surrogateescape")
+    for d in os.listdir("/proc"):
+        if not d.isdigit() or int(d) == me:
+            continue
+        try:
+            with open(f"/proc/{d}/cmdline", "rb") as f:
+                if nb in f.read():
+                    n += 1
+        except OSError:
+            pass
+    return n
+
+
 def _procs_with_cwd(cwd: str, exclude: set) -> int:
     n = 0
     for d in os.listdir("/proc"):
